@@ -22,12 +22,13 @@ class HarnessError(Exception):
 class Info:
     """What a case turned out to exercise; filled in by run_case."""
 
-    __slots__ = ("labels", "nontrivial", "counters")
+    __slots__ = ("labels", "nontrivial", "counters", "scratch")
 
     def __init__(self):
         self.labels = set()
         self.nontrivial = False
         self.counters = {}
+        self.scratch = {}  # per-case working memory of the oracles (never reported)
 
     def label(self, name, cond=True):
         if cond:
